@@ -131,10 +131,14 @@ func (self AnalyzedBoolLiteralExpression) Constant() bool    { return true }
 func escapeHmsString(input string) string {
 	output := input
 
+	// The backslash must be escaped first, otherwise the backslashes introduced below would be escaped again.
+	output = strings.ReplaceAll(output, "\\", "\\\\")
+
 	escapes := map[string]string{
 		"\n": "\\n",
 		"\"": "\\\"",
-		"\t": "\\n",
+		"\t": "\\t",
+		"\r": "\\r",
 	}
 
 	for from, to := range escapes {
